@@ -259,6 +259,7 @@ class FnSpec:
         self.ats = []
         self.closures = {}
         self.desugars = []
+        self.etas = []
         self.default_from = None
         self.optional = False
         self.attr = None
@@ -305,6 +306,12 @@ def parse_vspec(path):
             i += 1
         elif head == '@feature':
             root.append(('feature', rest))
+            i += 1
+        elif head == '@path':
+            m = re.match(r'"([^"]+)"\s+"([^"]+)"', rest)
+            if not m:
+                raise Undecided('%s:%d: bad @path' % (path, i + 1))
+            root.append(('path', m.group(1), m.group(2)))
             i += 1
         elif head == '@raw':
             text, i = block(i + 1)
@@ -372,6 +379,18 @@ def parse_vspec(path):
                     if not m:
                         raise Undecided('%s:%d: bad @desugar' % (path, i + 1))
                     fs.desugars.append((m.group(1), m.group(2), m.group(3)))
+                    i += 1
+                elif h2 == '@desugar_unary':
+                    m = re.match(r'(\S+)\s+"((?:[^"\\]|\\.)*)"', r2)
+                    if not m:
+                        raise Undecided('%s:%d: bad @desugar_unary' % (path, i + 1))
+                    fs.desugars.append((None, m.group(1), m.group(2)))
+                    i += 1
+                elif h2 == '@eta':
+                    m = re.match(r'"([^"]+)"\s+"([^"]+)"\s+"([^"]+)"', r2)
+                    if not m:
+                        raise Undecided('%s:%d: bad @eta' % (path, i + 1))
+                    fs.etas.append((m.group(1), m.group(2), m.group(3)))
                     i += 1
                 elif h2 == '@closure':
                     k, _, sig = r2.partition(' ')
@@ -622,6 +641,9 @@ class Extractor:
         """A7: `L OP R` -> `core::ops::Tr::m(L, R)` (what rustc itself does for non-primitive operands).
         Only applied where the operands are complete w.r.t. operator precedence; otherwise Undecided."""
         for L, op, R in fs.desugars:
+            if L is None:
+                body = self._desugar_unary(body, op, R, where, drops)
+                continue
             toks = lex(body)
             seq = [t.text for t in lex(L)] + [op] + [t.text for t in lex(R)]
             nl = len(lex(L))
@@ -653,6 +675,50 @@ class Extractor:
                 raise Undecided('desugar across lines in %s' % where)
             body = body[:s0] + 'core::ops::%s::%s(%s, %s)' % (tr, meth, ltxt, rtxt) + body[s1:]
             drops.append('A7 operator desugaring in %s: `%s %s %s` -> core::ops::%s::%s(..)' % (where, L, op, R, tr, meth))
+        return body
+
+    UNOPS = {'-': ('Neg', 'neg'), '!': ('Not', 'not')}
+
+    def _desugar_unary(self, body, op, R, where, drops):
+        """A7 (unary): `op R` -> `core::ops::Tr::m(R)` for an operand of reference type."""
+        toks = lex(body)
+        seq = [op] + [t.text for t in lex(R)]
+        hit = None
+        for k in range(len(toks) - len(seq) + 1):
+            if [t.text for t in toks[k:k + len(seq)]] == seq:
+                prev = toks[k - 1] if k else None
+                if prev is not None and (prev.kind in ('ident', 'num', 'str', 'char') and prev.text not in ('return', 'in', 'if', 'else', 'match') or prev.text in (')', ']')):
+                    continue    # binary use of the operator
+                hit = k
+                break
+        if hit is None:
+            raise Undecided('lost anchor: unary `%s %s` in %s' % (op, R, where))
+        nxt = toks[hit + len(seq)] if hit + len(seq) < len(toks) else None
+        if nxt is not None and nxt.text in ('.', '::', '(', '[', '?', 'as'):
+            raise Undecided('desugar of unary `%s %s` in %s: operand is not complete' % (op, R, where))
+        tr, meth = self.UNOPS[op]
+        s0, s1 = toks[hit].start, toks[hit + len(seq) - 1].end
+        rtxt = body[toks[hit + 1].start:s1]
+        body = body[:s0] + 'core::ops::%s::%s(%s)' % (tr, meth, rtxt) + body[s1:]
+        drops.append('A7 operator desugaring in %s: unary `%s %s` -> core::ops::%s::%s(..)' % (where, op, R, tr, meth))
+        return body
+
+    def _eta(self, body, fs, where, drops):
+        """A10: a datatype constructor passed as a function value, `f(Ctor)`, is eta-expanded to
+        `f(|x: A| -> (o: R) ensures o == Ctor(x) { Ctor(x) })` (same function; Verus does not accept constructors as values)."""
+        for ctor, arg_ty, ret_ty in fs.etas:
+            toks = lex(body)
+            seq = [t.text for t in lex(ctor)]
+            hits = []
+            for k in range(1, len(toks) - len(seq)):
+                if [t.text for t in toks[k:k + len(seq)]] == seq and toks[k - 1].text == '(' and toks[k + len(seq)].text == ')':
+                    hits.append(k)
+            if not hits:
+                raise Undecided('lost anchor: constructor value `%s` in %s' % (ctor, where))
+            for k in reversed(hits):
+                s0, s1 = toks[k].start, toks[k + len(seq) - 1].end
+                body = body[:s0] + '|x__: %s| -> (o__: %s) ensures o__ == %s(x__) { %s(x__) }' % (arg_ty, ret_ty, ctor, ctor) + body[s1:]
+            drops.append('A10 eta-expansion of constructor value `%s` (%d site(s)) in %s' % (ctor, len(hits), where))
         return body
 
     def _splice_body(self, body, fs, where):
@@ -744,12 +810,29 @@ class Extractor:
     # ---- emit ------------------------------------------------------------------
     def emit_fn(self, out, res, sf, it, fs, qual, canary):
         sig, body, body_line, sig_line = self._fn_parts(sf, it)
+        for old_p, new_p in getattr(self, '_paths', []):
+            # D3: a crate-level path is redirected to its preamble shim (token-exact match, line structure kept)
+            for part in ('sig', 'body'):
+                txt = sig if part == 'sig' else body
+                toks = lex(txt)
+                seq = [t.text for t in lex(old_p)]
+                hits = [k for k in range(len(toks) - len(seq) + 1) if [t.text for t in toks[k:k + len(seq)]] == seq
+                        and not (k and toks[k - 1].text == '::')]
+                for k in reversed(hits):
+                    txt = txt[:toks[k].start] + new_p + txt[toks[k + len(seq) - 1].end:]
+                if hits:
+                    res.drops.append('D3 path `%s` -> `%s` (%d site(s)) in %s' % (old_p, new_p, len(hits), it.name))
+                if part == 'sig':
+                    sig = txt
+                else:
+                    body = txt
         for a in it.attrs:
             res.drops.append('D1 attr on %s: %s' % (qual, a))
         where = '%s (%s)' % (qual, sf.rel)
         if not fs.external_body:
             body = self._clean_body(body, res.drops, where)
             body = self._desugar(body, fs, where, res.drops)
+            body = self._eta(body, fs, where, res.drops)
         if fs.ret:
             sig = self._name_ret(sig, fs.ret)
         start = out.lineno
@@ -941,7 +1024,8 @@ class Extractor:
         for nd in nodes:
             if nd[0] == 'feature':
                 out.add('#![feature(%s)]' % nd[1])
-        nodes = [nd for nd in nodes if nd[0] != 'feature']
+        self._paths = [(nd[1], nd[2]) for nd in nodes if nd[0] == 'path']
+        nodes = [nd for nd in nodes if nd[0] not in ('feature', 'path')]
         out.add('use vstd::prelude::*;')
         out.add('verus! {')
 
